@@ -5,9 +5,10 @@ EXTENDS Integers, Sequences, FiniteSets, TLC, Json
 Rows == ndJsonDeserialize("lock_rows.ndjson")
 Snaps == ndJsonDeserialize("lock_snap_rows.ndjson")
 Races == ndJsonDeserialize("lock_race_rows.ndjson")
+Facts == ndJsonDeserialize("lock_fact_rows.ndjson")
 VARIABLES kind, l
-Init == kind \in {"lock", "snap", "race"} /\ l = 1
-N == IF kind = "lock" THEN Len(Rows) ELSE IF kind = "snap" THEN Len(Snaps) ELSE Len(Races)
+Init == kind \in {"lock", "snap", "race", "fact"} /\ l = 1
+N == IF kind = "lock" THEN Len(Rows) ELSE IF kind = "snap" THEN Len(Snaps) ELSE IF kind = "race" THEN Len(Races) ELSE Len(Facts)
 Next == l < N /\ l' = l + 1 /\ UNCHANGED kind
 Spec == Init /\ [][Next]_<<kind, l>>
 \* row: [site, mutates, writeHeld, anyHeld, n]
@@ -17,5 +18,17 @@ C13_LockDiscipline == (kind = "lock" /\ l <= Len(Rows)) =>
 C13_ConsistentSnapshots == (kind = "snap" /\ l <= Len(Snaps)) => Snaps[l].ok
 \* data races / runtime faults reported for prunner code by the -race build of the concurrent driver
 C13_NoRaceReport == (kind = "race" /\ l <= Len(Races)) => ~Races[l].race
+\* facts observed by the concurrent clients that must hold whatever the interleaving was; fact rows: [prop, what, p, a, b, n]
+Fact(prop) == kind = "fact" /\ l <= Len(Facts) /\ Facts[l].prop = prop
+\* a snapshot (taken under the read lock) never shows more running jobs of a pipeline than its concurrency (a = running, b = limit)
+C01_ConcurrentSnapshots == Fact("C01") => Facts[l].a <= Facts[l].b
+\* ... nor more waiting jobs than its queue limit (a = waiting, b = limit, negative: unbounded)
+C05_ConcurrentSnapshots == Fact("C05") => (Facts[l].b < 0 \/ Facts[l].a <= Facts[l].b)
+\* the critical section of an accepted request precedes the one in which Shutdown began (a, b: positions in the order of the
+\* critical sections, b = 0: Shutdown has not begun); when Shutdown has returned no job is left non-terminal (a = their number)
+C11_ConcurrentShutdown == Fact("C11") =>
+   IF Facts[l].what = "accepted-vs-shutdown" THEN (Facts[l].b = 0 \/ Facts[l].a < Facts[l].b) ELSE Facts[l].a = 0
+\* a job is built from the definitions installed by the last ReplaceDefinitions before its own critical section (a = the job's, b = installed)
+C16_ConcurrentReload == Fact("C16") => Facts[l].a = Facts[l].b
 Alias == [kind |-> kind, line |-> l]
 =============================================================================
